@@ -1,5 +1,5 @@
 """C19 - A certificate chain is accepted only if every rule was checked ("accepted => checked"; completeness not decided)."""
-from common import (mentions, closure_in, ok_return_bbs, call_bbs, named_local, src_calls, src_fields, src_consts, bodies_of, result_used)
+from common import (equality_tests, variant_bbs, mentions, closure_in, ok_return_bbs, call_bbs, named_local, src_calls, src_fields, src_consts, bodies_of, result_used)
 from facts import AnchorLost, op_place
 import prims
 
@@ -19,7 +19,8 @@ itself (add_cert(self.cert));
 (CaseP::validate_certs, FailSafe::validate_certs, FailSafe::add_trusted_root_cert);
 (d) trust anchor / fabric binding and (e) credential installation are decided under C01-b and C08-c.
 """
-CLAUSES = ['a: every chain step checks authority link, signature, validity window and usage policy', 'b: verifier values only arise from verification', 'c: every chain user calls finalise before accepting']
+CLAUSES = ['a: every chain step checks authority link, signature, validity window and usage policy', 'b: verifier values only arise from verification', 'c: every chain user calls finalise before accepting',
+           'd: AddNOC refuses an existing (fabric id, root public key)', 'e: extended key usage: every required purpose looked up one by one']
 NOT_DECIDED = ['completeness: no valid chain is refused', 'field-value semantics of each extension parser', 'issuer/subject DN linking beyond the key-id link']
 MIN_OBLIGATIONS = {'q': 28, 'd': 28, 'r': 28}
 
@@ -167,6 +168,68 @@ def check(R):
         fv = R.body('failsafe::FailSafe::validate_certs')
         ss = fv.calls('cert::CertRef::is_self_signed')
         R.expect('P2', fv.fn, 'a self-signed ICAC is refused before it is used as an authority', len(ss) >= 1 and not prims.precedes(fv, [ss[0].bb], [t.bb for t in fv.calls(CV + '::add_cert')][:1]), 'is_self_signed precedes add_cert(icac)', 'missing')
+
+
+    # ---- d --------------------------------------------------------------------
+    with R.clause('d'):
+        dup_fabric_rule(R)
+
+    # ---- e --------------------------------------------------------------------
+    with R.clause('e'):
+        # "the leaf carries the prescribed key usages": ext_key_usage_has_all answers true only after it has gone through EVERY required
+        # purpose, and moves on to the next required purpose only after an equality match for the current one
+        b = R.body('cert::CertRef::ext_key_usage_has_all')
+        its = [t for t in b.calls('core::iter::traits::collect::IntoIterator::into_iter', 'core::slice::<impl [T]>::iter')
+               if ('arg', 2) in prims.sources(b, t.d['a'][0])]
+        alls = [t for t in b.calls('core::iter::traits::iterator::Iterator::all') if any(x[0] == 'arg' and x[1] == 2 for x in prims.sources(b, t.d['a'][0], through={'core::slice::<impl [T]>::iter', 'core::iter::traits::collect::IntoIterator::into_iter'}))]
+        trues = [bb for bb, k, pl in prims.result_defs(b) if k == 'agg' and pl.get('var') == 'Ok' and pl['a'][0].get('k', {}).get('v') == 1]
+        if alls:
+            R.cut('P2', b, 'answer true', trues or ok_return_bbs(b), 'all(required) holds', lambda: prims.track_result(F, b, alls[0]).success)
+        elif not its:
+            R.fail('P2', b.fn, 'answer true cut-by every required purpose was looked up in the certificate\'s list',
+                   'the function no longer iterates over `required`: the purposes are not looked up one by one (a membership count lets a repeated purpose stand in for a missing one)', f'{b.file}:{b.line}')
+        else:
+            nx = [t for t in b.calls('core::iter::traits::iterator::Iterator::next')
+                  if any(x[0] == 'call' and x[2] == its[0].bb for x in prims.sources(b, t.d['a'][0]))]
+            R.floor('next() on the iterator over `required`', len(nx), 1)
+            tr = prims.track_result(F, b, nx[0])
+            R.floor('Ok(true) results of ext_key_usage_has_all', len(trues), 1)
+            R.cut('P2', b, 'answer true', trues, 'the iteration over `required` is exhausted (every required purpose was looked up)', tr.failure)
+            eqt = set()
+            for (bb, neg, sa_, sb_, te, fe) in equality_tests(F, b):
+                eqt |= te
+            for (frm, to) in sorted(tr.success):
+                R.cut_from('P2', b, to, 'move on to the next required purpose', [nx[0].bb], 'the current purpose matched an entry of the list (==)', eqt)
+
+
+def dup_fabric_rule(R):
+    """AddNOC refuses a fabric that exists already: some equality test on (fabric id) and one on the ROOT PUBLIC KEYS - the staged root's
+    against the one decoded from each existing fabric's root certificate - guard the NocFabricConflict refusal."""
+    F = R.facts
+    an = R.body('failsafe::FailSafe::add_noc')
+    bodies = [an] + [b for b in F.nested(an.fn)]
+    thr = {'cert::CertRef::new', 'tlv::read::TLVElement::new', 'cert::CertRef::pubkey'}
+    idt, keyt, other = [], [], []
+    for b in bodies:
+        for (bb, neg, sa_, sb_, te, fe) in equality_tests(F, b, through=thr):
+            ca, cb = src_calls(sa_), src_calls(sb_)
+            if 'fabric::Fabric::fabric_id' in ca | cb:
+                idt.append((b, bb))
+            if 'fabric::Fabric::root_ca' in ca | cb:
+                side_f, side_o, so = (ca, cb, sb_) if 'fabric::Fabric::root_ca' in ca else (cb, ca, sa_)
+                if 'cert::CertRef::pubkey' in side_f and ('cert::CertRef::pubkey' in side_o or any(x[0] == 'upvar' and 'pubkey' in x[1] for x in so)):
+                    keyt.append((b, bb))
+                else:
+                    other.append((b, bb))
+    R.expect('P2', an.fn, 'AddNOC compares the NOC fabric id with every existing fabric\'s id', len(idt) >= 1 and any(c_.endswith('Fabrics::iter') for c_ in an.calls_summary),
+             f'{len(idt)} fabric-id test(s) over Fabrics::iter()', 'duplicate-fabric scan missing')
+    R.expect('P10', an.fn, 'the duplicate-fabric test compares root PUBLIC KEYS (decoded from the staged and from the stored root certificate)', len(keyt) >= 1 and not other,
+             f'{len(keyt)} test(s): CertRef::pubkey(staged root) == CertRef::pubkey(fabric.root_ca())',
+             'the stored root certificate is compared as something other than its public key' + (f' at {other[0][0].where(other[0][1])}' if other else ' (no public-key comparison found)') +
+             ': a re-issued root certificate for the same key passes the duplicate test and a second entry for an existing fabric is installed',
+             other[0][0].where(other[0][1]) if other else f'{an.file}:{an.line}')
+    confl = variant_bbs(an, 'error::ErrorCode', 'NocFabricConflict') + [x for b in bodies[1:] for x in variant_bbs(b, 'error::ErrorCode', 'NocFabricConflict')]
+    R.expect('P2', an.fn, 'a match is refused with NocFabricConflict', len(confl) >= 1, 'Err(NocFabricConflict)', 'no NocFabricConflict refusal left')
 
 
 def _fail(R, body, callee, inner=0):
